@@ -3,6 +3,7 @@ import Rivia.Model.Path
 import Rivia.Spec.GoClean
 import Rivia.Spec.PathLaws
 import Rivia.Spec.Expand
+import Rivia.Lemmas.Expand
 
 namespace Driver
 open Rivia
@@ -80,15 +81,13 @@ def pathFn (fn : String) (args : List String) : Option String :=
   | "expand", [a, e] => do
     let s ← strOfArg a; let env ← envOfArg e
     let en := envLookup env
-    -- spec (C17): inside D the exact result; inside DErr the same result or both fail (the order of
-    -- failure reasons is not pinned down); a component that ends in a bare `$` is the recorded finding
+    -- spec (C17): inside D the exact result; inside DSpec (no component `Ambiguous`; a component
+    -- that ends in a bare `$` is inside and has to fail) the same result or both fail (the order
+    -- of failure reasons is not pinned down); `Ambiguous` components are unspecified
     let sp := Spec.expandSpec en s
     let (spc, cls) : String × String :=
       if Spec.D en s then (showOutcome showStr sp, "-")
-      else if Spec.DErr en s then ((match sp with | .ok x => okStr x | _ => "err *"), "-")
-      else if (match expand en s with | .ok _ => true | _ => false) && (match sp with | .err .invalidExpansion => true | _ => false)
-              && !((splitSlash s).any Spec.Ambiguous)
-        then ("err *", "trailing_dollar")
+      else if Rivia.Lemmas.Expand.DSpec en s then ((match sp with | .ok x => okStr x | _ => "err *"), "-")
       else ("-", "-")
     pure (line3 (showOutcome showStr (expand en s)) spc cls)
   | "abs_memfs", [c, a, e] => do
